@@ -350,7 +350,9 @@ static int jtype(unsigned c)
 static void part_shape(void)
 {
 	static const unsigned nbr[] = {0, 0x628, 0x627, 0x621, 'a', 0x200d, 0x200c, 0x640, 0x6cc, 0x62f, ' '};
-	static const unsigned dia[] = {0x64e, 0x651, 0x670};
+	/* diacritics that joining looks through: the ends and the middle of U+064B..U+0655, and U+0670 */
+	static const unsigned dia[] = {0x64e, 0x651, 0x670, 0x64b, 0x655, 0x652};
+#define NDIA 6
 	int nn = sizeof(nbr) / sizeof(nbr[0]);
 	int na = peek_uc_nachars();
 	unsigned cur;
@@ -384,11 +386,11 @@ static void part_shape(void)
 						if (nbr[ip])
 							len += ref_enc(nbr[ip], s + len);
 						for (k = 0; k < dp; k++)
-							len += ref_enc(dia[(k + ip) % 3], s + len);
+							len += ref_enc(dia[(k + ip) % NDIA], s + len);
 						pc = s + len;
 						len += ref_enc(cur, s + len);
 						for (k = 0; k < dn; k++)
-							len += ref_enc(dia[(k + in + 1) % 3], s + len);
+							len += ref_enc(dia[(k + in + 1) % NDIA], s + len);
 						if (nbr[in])
 							len += ref_enc(nbr[in], s + len);
 						s[len++] = '\n';
